@@ -7,6 +7,12 @@ CHECKS = {
  'C01': dict(cat='exploration', tech='differential execution of emitted IL (IL-to-C translation run under AddressSanitizer) against gcc/clang reference runs',
              text='Executes the code cproc emits for corpus and randomly generated defined programs and compares every output event and the exit status with two reference compilers; ASan watches every object the emitted code allocates. Held on the executions listed in the evidence, not a proof.',
              note='Trusted: il2c reading of QBE semantics, gcc 12, clang 14, ASan/UBSan; generated programs are defined by construction and filtered by sanitizers in the reference builds.', ref='4/C01'),
+ 'C15': dict(cat='exploration', tech='invariant monitor on the unmodified AVL module (ASan+UBSan) plus differential execution of generated switch statements',
+             text='tree.c is linked into a monitor that checks order, heights, balance and the new flag after every insertion, exhaustively for all insertion orders of up to 8 keys and randomly to 5000 keys; generated switches with mixed-type case constants are executed on probes at every key, its neighbours and the type limits; duplicates must be rejected; ladder depth is read from the IL.',
+             note='exhaustive only for the insertion-order enumeration; compiled switches are judged against gcc/clang executions on x86-64.', ref='4/C15'),
+ 'C16': dict(cat='exploration', tech='history checker: operation histories on the unmodified hash map against a reference dictionary; value read-back of generated scope/shadowing units',
+             text='map.c is linked into a monitor replaying put/overwrite/get/clear histories with keys colliding in the low hash bits; generated units with up to 5000 (thorough 50000) identifiers, 200-deep nesting and shadowing across name spaces are compiled and every use is compared with the value the C scope rules select; string literal objects are decoded from the IL.',
+             note='Capacities restricted to those the compiler uses; expected values come from the generator\'s own scope model.', ref='4/C16'),
  'C03': dict(cat='exploration', tech='online validator (re-implemented QBE parse/typecheck/SSA rules) over every accepted output; strace write-fault injection',
              text='Every module printed with exit status 0 (suite, corpus, generated, odd-shaped and mutated inputs, cproc\'s own sources; three targets) is parsed and checked by an independent IL validator; output faults are injected at the k-th write.',
              note='Trusted: vf.ilcheck (silent on the 159 stored .qbe files and the self-compiled IL); data sizes vs C objects are judged by C06/C07.', ref='4/C03'),
